@@ -1,6 +1,8 @@
 """C20 — multipart form encoding is structurally sound for any field content.
 
 c20_char   : per-character lemma over ALL code points: format_multipart_header_param escapes exactly CR, LF and '"'.
+c20_render : ONE arbitrary code point inside a field name / filename through RequestField (direct and from_tuples) and
+             render_headers(): the header block is exactly Content-Disposition (+ Content-Type) with only CR, LF, '"' escaped.
 c20_param  : the lemma lifted to short strings (str.translate is a homomorphism) + bytes values.
 c20_layout : encode_multipart_formdata with ONE symbolic component (field name / filename / str data / bytes data)
              inside concrete neighbours, parsed back by an independent strict multipart parser.
@@ -81,6 +83,41 @@ def c20_param(s: str, as_bytes: bool) -> bool:
     post: _
     """
     return run(_param_body, s, as_bytes)
+
+
+def _render_body(c, where, via_tuple):
+    """One arbitrary code point inside the field name or the filename, through RequestField.render_headers() — str operations
+    only, so the code point stays symbolic and z3 decides the comparison for every value."""
+    ch = chr(c)
+    name = ("a" + ch + "b") if where == 0 else "n"
+    filename = ("f" + ch + ".txt") if where == 1 else ("x.bin" if where == 2 else None)
+    if via_tuple:
+        rf = RequestField.from_tuples(name, (filename, "data", "text/plain") if filename is not None else "data")
+    else:
+        rf = RequestField(name, "data", filename=filename)
+        rf.make_multipart(content_type="text/plain" if filename is not None else None)
+    got = rf.render_headers()
+    e = "%0A" if c == 10 else ("%0D" if c == 13 else ("%22" if c == 34 else ch))
+    ename = ("a" + e + "b") if where == 0 else "n"
+    disp = 'Content-Disposition: form-data; name="' + ename + '"'
+    if filename is not None:
+        disp += '; filename="' + (("f" + e + ".txt") if where == 1 else "x.bin") + '"'
+    want = disp + "\r\n"
+    if filename is not None:
+        want += "Content-Type: text/plain\r\n"
+    want += "\r\n"
+    if got != want:
+        return _fail("code point %r in %s: header block %r, expected %r" % (c, ["name", "filename", "-"][where], got, want))
+    return True
+
+
+def c20_render(c: int, where: int, via_tuple: bool) -> bool:
+    """
+    pre: 0 <= c <= 0x10FFFF and not (0xD800 <= c <= 0xDFFF)
+    pre: where == P.where and via_tuple == P.via_tuple
+    post: _
+    """
+    return run(_render_body, c, where, via_tuple)
 
 
 class MultipartError(Exception):
@@ -257,6 +294,10 @@ def JOBS(tier):
     t = 150 if quick else 900
     ml = 2 if quick else 3
     jobs = [{"func": "c20_char", "part": {}, "timeout": t},
+            {"func": "c20_render", "part": {"where": 0, "via_tuple": False}, "timeout": t},
+            {"func": "c20_render", "part": {"where": 1, "via_tuple": False}, "timeout": t},
+            {"func": "c20_render", "part": {"where": 0, "via_tuple": True}, "timeout": t},
+            {"func": "c20_render", "part": {"where": 1, "via_tuple": True}, "timeout": t},
             {"func": "c20_param", "part": {"maxlen": 3 if quick else 4}, "timeout": t},
             {"func": "c20_request", "part": {}, "timeout": t}]
     for which in ("name", "filename", "data_str", "data_bytes", "file_data_str"):
